@@ -685,7 +685,7 @@ func kindOf(name string) string { return strings.SplitN(strings.SplitN(name, "("
 // stepM runs one lane-M operation on a snapshot of n.
 func stepM(n mNode, w *mWorld, o op, col *evid.Collector) (*memstore.Store, obs, verdict, error) {
 	ms := n.ms.Snapshot()
-	err := o.run(ms)
+	err := runRecovered(func() error { return o.run(ms) }, col)
 	after := observe(memView{ms})
 	col.Inc("transitions")
 	col.Inc("evaluations")
